@@ -52,7 +52,9 @@ def file_frame(draw):
     for i in range(ncols):
         kind = draw(st.sampled_from(KINDS))
         if kind == 'int64':
-            vs = st.integers(-50, 50)
+            vs = draw(st.sampled_from([st.integers(-50, 50),
+                                       st.integers(-50, 50),
+                                       st.integers(0, 1)]))
         elif kind == 'float64':
             vs = st.one_of(st.integers(-50, 50).map(lambda k: k / 4.0),
                            st.none())
@@ -94,7 +96,9 @@ def case_strategy(draw, tier):
         case['perturb'] = draw(st.sampled_from(['none', 'drop-rows',
                                                 'drop-rows', 'shift',
                                                 'ints-without-nulls',
-                                                'ints-without-nulls']))
+                                                'ints-without-nulls',
+                                                'bools-as-ints',
+                                                'strings-as-numbers']))
         case['rex'] = draw(st.booleans())
         case['report'] = draw(st.sampled_from([None, '-a', '-f', '--all',
                                                '--fields']))
@@ -235,6 +239,20 @@ def sibling(case):
                     v is None or float(v).is_integer() for v in c['cells']):
                 c['kind'] = 'int64'
                 c['cells'] = [0 if v is None else int(v) for v in c['cells']]
+    elif p == 'bools-as-ints':
+        # the constraints say bool (as found in a file spelling true/false)
+        # where this file holds 0/1 integers
+        for c in fr['cols']:
+            if c['kind'] == 'int64' and all(v in (0, 1) for v in c['cells']):
+                c['kind'] = 'bool'
+                c['cells'] = [bool(v) for v in c['cells']]
+    elif p == 'strings-as-numbers':
+        # the constraints say string where this file's column, all digits,
+        # is read as numbers
+        for c in fr['cols']:
+            if c['kind'] == 'int64':
+                c['kind'] = 'string'
+                c['cells'] = [str(v) for v in c['cells']]
     elif p == 'shift':
         for c in fr['cols']:
             if c['kind'] == 'int64':
